@@ -366,6 +366,12 @@ def run(prop, tier, seed):
         if prop == 'C03':
             items += list(scenarios(fl, n_nodes, prov_edges, provenance=True))
         items += list(two_op_scenarios(fl, n_nodes, 1 if tier == 'quick' else 2))
+        if tier == 'quick':
+            # two operations on a pair joined by two edges (parallel, antiparallel, two self-loops), the first one a removal:
+            # whatever a removal leaves behind besides the lists (caches, memos, counters) is exercised by the second
+            items += [it for it in two_op_scenarios(fl, n_nodes, 2)
+                      if len(it[1]['meta']['seq']) == 2 and set(it[1]['meta']['seq'][0]) == set(it[1]['meta']['seq'][1])
+                      and it[1]['meta']['first'][0] in ('disconnect', 'isolate')]
         # high-degree hub states (5 incident edges; thorough: 6, and with a removal before the operation)
         items += list(hub_scenarios(fl, 5))
         if tier != 'quick':
@@ -373,7 +379,7 @@ def run(prop, tier, seed):
             items += list(hub_scenarios(fl, 5, with_removal=True))
     return scenario_check(
         prop, tier, seed, items, evaluate_ctx, sig_of,
-        bounds={'nodes': n_nodes, 'max_pre_state_edges': max_edges, 'four_node_states_max_edges': n4_edges, 'hub_states': 'node 0 with 5 incident edges of every orientation' + ('' if tier == 'quick' else '; also 6 edges, and 5 edges followed by one removal'), 'operations_per_history_step': 1, 'two_operation_histories_max_pre_edges': 1 if tier == 'quick' else 2,
+        bounds={'nodes': n_nodes, 'max_pre_state_edges': max_edges, 'four_node_states_max_edges': n4_edges, 'hub_states': 'node 0 with 5 incident edges of every orientation' + ('' if tier == 'quick' else '; also 6 edges, and 5 edges followed by one removal'), 'operations_per_history_step': 1, 'two_operation_histories_max_pre_edges': '1, and 2 when both edges join the same pair and the first operation is a removal' if tier == 'quick' else 2,
                 'flavours': list(flavours), 'handle_provenance_sweep_max_edges': prov_edges if prop == 'C03' else 0,
                 'symbolic': 'all edge values (z3 Int), one fresh value for the operation',
                 'outside': 'more than 4 nodes, more pre-state edges, dropped neighbours'},
